@@ -171,8 +171,16 @@ def build_cases(res):
             verdict = "run ended with %s" % r["verdict"]
         else:
             pnames = sorted(r["procs"], key=lambda x: int(x[1:]))
-            # process k belongs to the k-th launched call = submission order (one dispatcher)
-            for k, pn in enumerate(pnames):
+            # which call a process served: the request its side of the socket received
+            served = {}
+            for en, pick, lab in r["trace"]:
+                if lab[0] == "zrecv" and str(lab[1]).startswith("C") and str(lab[2]).startswith("call"):
+                    served["P" + str(lab[1])[1:]] = int(str(lab[2])[4:])
+            for pn in pnames:
+                if pn not in served:
+                    verdict = "process %s was launched but never received a call" % pn
+                    continue
+                k = served[pn] - 1
                 rd = c["calls"][k]["res"]
                 eff = effective(c["executor_kwargs"], rd)
                 argv = r["procs"][pn]["argv"]
